@@ -137,14 +137,82 @@ def check_sat(state, extra, timeout_ms=2000, light=False):
     return "unknown", None
 
 
+def _sign_atom(state, f):
+    """(canonical polynomial key, set of allowed signs) for an atomic sign condition on a polynomial, else None.
+    The polynomial is normalised so that p and -p (and positive multiples) share one key."""
+    neg = False
+    while f[0] == "not":
+        neg = not neg
+        f = f[1]
+    if f[0] not in ("lt", "le", "eq") or f[1].d is not None:
+        return None
+    n = f[1].n
+    if state.pc.rules:
+        n = P.nf(n)
+    if n.is_const():
+        return None
+    lead_m = min(n.t)
+    lc = Fraction(n.t[lead_m])
+    flip = lc < 0
+    key = frozenset((m, Fraction(c) / lc) for m, c in n.t.items())
+    allowed = {"lt": {-1}, "le": {-1, 0}, "eq": {0}}[f[0]]
+    if neg:
+        allowed = {-1, 0, 1} - allowed
+    if flip:
+        allowed = {-x for x in allowed}
+    return key, allowed
+
+
+def _sign_facts(state):
+    facts = {}
+    for g in list(state.path) + [h for h in state.hyps if h[0] in ("lt", "le", "eq", "not")]:
+        a = _sign_atom(state, strip_inf(state, g))
+        if a is not None:
+            facts[a[0]] = facts.get(a[0], {-1, 0, 1}) & a[1]
+    return facts
+
+
+def _zero_set_contradictory(state, new_key):
+    """The polynomials pinned to zero on this path (plus the new one) generate 1 by a combination
+    1 = sum c_i p_i + sum c_ij p_i p_j  (c rational, verified symbolically modulo the rewrite rules):
+    e.g. all four components of a product of unit quaternions vanish."""
+    from gsv.symkernel import linear_membership
+    keys = [k_ for k_, allowed in _sign_facts(state).items() if allowed == {0}]
+    if new_key not in keys:
+        keys.append(new_key)
+    if len(keys) < 2 or len(keys) > 8:
+        return False
+    polys = [P.Poly({m: P._c(c) for m, c in key}) for key in keys]
+    gens = list(polys) + [polys[i] * polys[j] for i in range(len(polys)) for j in range(i, len(polys))]
+    return linear_membership(state, P.Poly.const(1), gens)
+
+
 def decider(state, formula, timeout_ms=2000):
     """Feasible truth values of formula under the current hypotheses and path condition."""
     formula = strip_inf(state, formula)
     triv = S.trivial_truth(formula)
     if triv is not None:
         return [triv]
+    # sign bookkeeping for opaque polynomials: decides p<0 vs -p<0, p>=0 & p<=0 & p!=0, ... without the solver
+    atom = _sign_atom(state, formula)
+    pruned = set()
+    if atom is not None:
+        known = _sign_facts(state).get(atom[0], {-1, 0, 1})
+        if not (known & atom[1]):
+            pruned.add(True)
+        if not (known & ({-1, 0, 1} - atom[1])):
+            pruned.add(False)
+    if atom is not None:
+        for val in (True, False):
+            if val in pruned:
+                continue
+            allowed = known & (atom[1] if val else ({-1, 0, 1} - atom[1]))
+            if allowed == {0} and _zero_set_contradictory(state, atom[0]):
+                pruned.add(val)
     feas = []
     for val in (True, False):
+        if val in pruned:
+            continue
         f = [formula if val else ("not", formula)]
         r, _ = check_sat(state, f, timeout_ms, light=True)
         if r != "unsat" and _has_definitions(state) and not getattr(state, "light_only", False):
@@ -176,11 +244,77 @@ def prove(state, goal, timeout_ms=20000, use_cvc5=True):
         return "proved", None, "z3"
     if r == "sat":
         return "refuted", model_to_dict(state, model), "z3"
+    if homogeneous_angle_query(state, goal):
+        r3 = check_sat_homogeneous(state, goal, timeout_ms)
+        if r3 == "unsat":
+            return "proved", None, "z3-angle-units"
     if use_cvc5:
         r2 = cvc5_check(state, [("not", goal)], timeout_s=max(5, timeout_ms // 1000))
         if r2 == "unsat":
             return "proved", None, "cvc5"
     return "unknown", None, "z3"
+
+
+# --------------------------------------------------------------------------- angle queries in units of one turn
+#
+# Wrapped angles are  x - 2*PI*k  with integer ghosts k, so range / congruence goals contain the products PI*k, which makes
+# them non-linear for the solvers.  A formula whose atoms are all HOMOGENEOUS of degree one in the real (non-integer)
+# variables -- every monomial has exactly one real factor, to the first power, times integer variables -- is invariant under
+# scaling all real variables by a common positive factor.  Since PI > 0 we may therefore fix PI := 1/2 (angles measured in
+# turns); the query becomes linear mixed integer/real arithmetic, which z3 decides.  Hypotheses that are not homogeneous
+# (3 < PI < 4, polynomial definitions of atoms) are dropped, which is sound.
+
+def _homogeneous_atom(state, s):
+    if s.d is not None:
+        return False
+    kinds = state.pc.kinds
+    for m in s.n.t:
+        real = [(v, e) for v, e in m if kinds[v] != "int"]
+        if len(real) != 1 or real[0][1] != 1:
+            return False
+        if any(e != 1 for v, e in m if kinds[v] == "int") or sum(1 for v, e in m if kinds[v] == "int") > 1:
+            return False
+    return True
+
+
+def _homogeneous_formula(state, f):
+    op = f[0]
+    if op in ("true", "false"):
+        return True
+    if op in ("lt", "le", "eq"):
+        return _homogeneous_atom(state, f[1])
+    return all(_homogeneous_formula(state, g) for g in f[1:])
+
+
+def homogeneous_angle_query(state, goal):
+    goal = strip_inf(state, goal)
+    return _homogeneous_formula(state, goal)
+
+
+def check_sat_homogeneous(state, goal, timeout_ms):
+    goal = strip_inf(state, goal)
+    fs = [strip_inf(state, h) for h in list(state.hyps) + list(state.path)]
+    fs = [f for f in fs if _homogeneous_formula(state, f)]
+    half = S.Sym(P.Poly.const(Fraction(1, 2)))
+
+    def sub(f):
+        op = f[0]
+        if op in ("true", "false"):
+            return f
+        if op in ("lt", "le", "eq"):
+            return (op, S.Sym(f[1].n.subs({0: half.n})))
+        return (op,) + tuple(sub(g) for g in f[1:])
+    tr = Translator(state)
+    s = z3.Solver()
+    s.set("timeout", timeout_ms)
+    for f in fs:
+        s.add(tr.formula(sub(f)))
+    s.add(z3.Not(tr.formula(sub(goal))))
+    t = time.time()
+    r = s.check()
+    STATS["z3_calls"] += 1
+    STATS["z3_time"] += time.time() - t
+    return str(r)
 
 
 def model_to_dict(state, model):
